@@ -1215,7 +1215,11 @@ class Problem:
         # performed, we evaluate the objective and nonlinear constraint
         # functions at the initial guess.
         if len(self._fun_filter) == 0:
-            self(self.x0)
+            # The filter has been updated when the callback is executed, so
+            # that a request of the callback to stop can be disregarded here:
+            # the caller is already assembling the final result.
+            with suppress(CallbackSuccess):
+                self(self.x0)
 
         # Find the best point in the filter.
         fun_filter = np.array(self._fun_filter)
